@@ -121,7 +121,7 @@ class C07(PropBase):
         burst = "exhaust" in sw and rng.random() < 0.4  # an exhaustion-heavy run on few roots
         # a rejection-heavy run: many inputs that are rightly refused deep inside the recursion, with
         # valid values in between (whatever unwinding leaves behind must not add up)
-        rburst = "reject_deep" in sw and not burst and rng.random() < 0.35
+        rburst = "reject_deep" in sw and not burst and rng.random() < 0.5
         if burst:
             roots = roots[:1]
         if rburst:
